@@ -25,6 +25,9 @@ func c12cell() string {
 		if vx.Bool() {
 			return "-0"
 		}
+		if vx.Bool() {
+			return "+1" // explicit plus sign: an int (and a float) for strconv
+		}
 		return "1.5"
 	}
 	b := vx.Byte()
